@@ -1,5 +1,5 @@
 """C06 -- mapping matrices conserve flux and encode the claimed interpolation."""
-import itertools, random
+import itertools, random, math, inspect
 import numpy as np
 from fractions import Fraction as F
 from harness.common import cz, cq, cnat, cbool, clist, ctup, cres, import_aa, frac, exn_name
@@ -41,6 +41,17 @@ RULE = ("masks up to 6x6 with 1..10 unmasked pixels (densities 0.15-0.9, single 
         "own sub-pixel grid plus a deflection; a quarter of the exact rectangular and of the Delaunay cases have the whole source plane scaled "
         "by 2^-30, 2^-10 or 2^20; a third of the Delaunay cases put data points 2^-8..2^-26 away from a vertex or the midpoint of two vertices "
         "(tiny non-zero weights); every fresh mapper is read twice (and through the per-field accessors) and its inputs are compared with snapshots. "
+        "(h) MESH API with relocation: aa.mesh.Rectangular(shape).mapper_grids_from / aa.mesh.Delaunay().mapper_grids_from(mask, source_plane_data_grid, "
+        "source_plane_mesh_grid, border_relocator=aa.BorderRelocator(mask, sub_size as int or as the over-sampler's Array2D), preloads) + aa.Mapper on masks "
+        "with >= 2 (Delaunay >= 3) pixels, 1-3 NON-border sub-pixels traced 3x..400x beyond the cloud (the sub-pixels the relocator moves), for Delaunay "
+        "1-2 vertices 4x / 20x outside as well; 10% without relocator, 25% with preloads.relocated_grid = another grid with modest outliers; the source grid "
+        "also as a uniform Grid2D; half of the calls on a mesh object that has just served ANOTHER source plane with the same relocator; the shared default "
+        "Preloads() objects of the API fingerprinted before / after. Observed: the grids the mapper HOLDS (mapper.source_plane_data_grid / "
+        "source_plane_mesh_grid) and the four C06 observables; checked inside Coq (KMeshApi): held grids = C18's relocation model of the originals "
+        "(untouched coordinates bit for bit, moved ones to 1e-9) and accepted by C18's relocation specification, and the KRect / KDel clauses (mesh = overlay "
+        "of the HELD grid, cell containment / barycentric weights / matrix / unique / neighbours) on the held grids; cases with a relocation decision "
+        "inside C18's 1e-6 band, a held point within 1e-9 cell widths of a cell boundary or 1e-9 (barycentric) of a simplex edge, or nearly degenerate "
+        "relocated vertices are skipped and counted. A quarter of the histories (g) build their mapper this way (KMeshApi on the closing readings). "
         "Non-trivial = more than one source pixel receives flux; distinct = distinct JSON input.")
 EXHAUSTIVE = {"quick": "rectangular neighbour arrays: every mesh shape H, W in 2..9",
               "thorough": "rectangular neighbour arrays: every mesh shape H, W in 2..16"}
@@ -51,6 +62,9 @@ TRUSTED = ["hand-written Gallina model coq/Model/C06.v + coq/Model/C06h.v (histo
            "(reported simplex contains the point, -1 only outside every simplex, non-degenerate simplices, neighbour lists = edges of the simplices) "
            "is re-checked in exact rational arithmetic inside Coq (oracle_ok, neighbors_spec) on every Delaunay case",
            "numpy element-wise arithmetic, np.min/np.max/np.argmin, integer indexing (negative indices wrap)",
+           "mesh-API stream: coq/Model/C18.v (relocation model relocated_with and specification relocation_ok / sub_border_ok, C18's subject) is reused "
+           "for the grids the mapper holds; the relocator's sub_border_slim is taken from the BorderRelocator object and accepted on its own terms by "
+           "C18.sub_border_ok; decision bands computed on an independent Fraction/float reference of the relocation (harness ref_relocate, harness/c18.in_band_F)",
            "python int() = truncation toward zero (NumOps.trunc)"]
 ASSUMPTIONS = ["real arithmetic (no rounding): theorems over R; correspondence on exactly representable inputs or under tolerance 1e-9 with every "
                "cell-boundary decision at a margin >= 1e-9 cell widths",
@@ -142,8 +156,55 @@ def fit_extent(rng, vals, n):
 
 SRC_KINDS = ["plain", "plain", "scaled", "osg"]
 
-def gen_rect(rng, mode, maxn, like=None, cap=60):
-    """like: a previous draw whose mask / sub-sizes / mesh shape are kept (a second, different source plane for the same data)"""
+def movable(m, subs):
+    """indices of the sub-pixels that are (mostly) NOT border sub-pixels: every sub-pixel of a pixel that is not a border pixel
+    of the mask, and the sub-pixels of border pixels with sub-size > 1 (one of which is the border sub-pixel).  A border
+    sub-pixel is its own nearest border point and is never moved, so outliers are put elsewhere.  Steering only."""
+    H, W = len(m), len(m[0]); out = []; k = 0; s0 = 0
+    def masked(y, x): return y < 0 or x < 0 or y >= H or x >= W or m[y][x]
+    for y in range(H):
+        for x in range(W):
+            if m[y][x]: continue
+            edge = any(masked(y + dy, x + dx) for dy in (-1, 0, 1) for dx in (-1, 0, 1) if (dy, dx) != (0, 0))
+            border = edge and (all(m[yy][x] for yy in range(y)) or all(m[y][xx] for xx in range(x + 1, W))
+                               or all(m[yy][x] for yy in range(y + 1, H)) or all(m[y][xx] for xx in range(x)))
+            n = subs[k] * subs[k]; k += 1
+            if not border or n > 1: out += list(range(s0, s0 + n))
+            s0 += n
+    return out
+
+def add_outliers(rng, pts, kmax=3, factors=(3, 8, 50, 400), cand=None):
+    """push 1..kmax points far outside the cloud (3x .. 400x their distance from the centroid, or in a fresh direction):
+    the sub-pixels a BorderRelocator actually moves"""
+    pts = list(pts); n = len(pts)
+    cy, cx = sum(p[0] for p in pts) / n, sum(p[1] for p in pts) / n
+    cand = list(range(n)) if cand is None else cand
+    for i in rng.sample(cand, min(len(cand), rng.randint(1, kmax))):
+        d = (pts[i][0] - cy, pts[i][1] - cx)
+        if d == (0, 0) or rng.random() < 0.3: d = (F(rng.randint(-8, 8), 4), F(rng.randint(-8, 8), 4))
+        if d == (0, 0): d = (F(1), F(-1, 2))
+        f = rng.choice(factors)
+        pts[i] = (snap(cy + f * d[0]), snap(cx + f * d[1]))
+    return pts
+
+def gen_reloc_descr(rng, m, subs, npts):
+    """how the mapper is built through the mesh API: with a BorderRelocator (sub-size handed over as an int or as the
+    over-sampler's own Array2D), optionally with a preloaded relocated grid, optionally on a mesh object that has already
+    served another source plane"""
+    rl = {"relocator": rng.random() < 0.9, "sub_int": rng.random() < 0.5, "warm": rng.random() < 0.5, "preload": None,
+          # the remaining optional arguments at non-default values: the relocator handed to aa.Mapper as well, an image-plane
+          # mesh grid (run_time_dict stays None: the profiling branch needs a workspace config the repo's default lacks)
+          "opt": rng.random() < 0.4}
+    if rng.random() < 0.25:
+        # (a preloaded grid is used as it is: modest outliers, so that the default 1e-8 buffer of the rectangular overlay stays
+        # above the decision margin of 1e-9 cell widths)
+        rl["preload"] = [[S(p[0]), S(p[1])] for p in add_outliers(rng, distort(rng, sub_centres(m, subs)), factors=(2, 3), cand=movable(m, subs) or None)]
+    return rl
+def outlier_factors(rl): return (3, 8, 50, 400) if (rl["relocator"] and not rl["preload"]) else (2, 3)
+
+def gen_rect(rng, mode, maxn, like=None, cap=60, reloc=False):
+    """like: a previous draw whose mask / sub-sizes / mesh shape are kept (a second, different source plane for the same data)
+    reloc: through aa.mesh.Rectangular(shape).mapper_grids_from WITH a BorderRelocator and outliers (mode 'public')"""
     if like is None:
         m = rand_mask(rng, maxn)
         n = sum(1 for r in m for b in r if not b)
@@ -154,6 +215,11 @@ def gen_rect(rng, mode, maxn, like=None, cap=60):
     else:
         m, subs, shape = like["m"], like["subs"], tuple(like["shape"])
     pts = distort(rng, sub_centres(m, subs))
+    if reloc:
+        if len(subs) < 2: return None          # a single border point: everything collapses onto it (zero extent)
+        rl = gen_reloc_descr(rng, m, subs, len(pts))
+        if not movable(m, subs): return None
+        pts = add_outliers(rng, pts, factors=outlier_factors(rl), cand=movable(m, subs))
     if mode == "exact":
         if len(pts) < 2: return None
         ys, xs = [p[0] for p in pts], [p[1] for p in pts]
@@ -173,9 +239,13 @@ def gen_rect(rng, mode, maxn, like=None, cap=60):
         buf = BUF_DEFAULT
     # magnitudes: the whole source plane (and the buffer) scaled by a power of two (exact), down to ~1e-9 and up to ~1e6
     sc = F(2) ** (rng.choice([-30, -10, 20]) if (mode == "exact" and rng.random() < 0.25) else 0)
-    return {"op": "rect", "mode": mode, "m": m, "subs": subs, "grid": [[S(p[0] * sc), S(p[1] * sc)] for p in pts],
-            "shape": list(shape), "buffer": S(buf * sc if mode == "exact" else buf), "fsub": rng.random() < 0.3,
-            "src": rng.choice(SRC_KINDS)}
+    g = {"op": "rect", "mode": mode, "m": m, "subs": subs, "grid": [[S(p[0] * sc), S(p[1] * sc)] for p in pts],
+         "shape": list(shape), "buffer": S(buf * sc if mode == "exact" else buf), "fsub": rng.random() < 0.3,
+         "src": rng.choice(SRC_KINDS)}
+    if reloc:
+        g["reloc"] = rl
+        if all(s == 1 for s in subs) and rng.random() < 0.5: g["src"] = "grid2d"      # a uniform Grid2D instead of a Grid2DIrregular
+    return g
 
 def cross(a, b, c): return (b[0] - a[0]) * (c[1] - a[1]) - (b[1] - a[1]) * (c[0] - a[0])
 def incircle(a, b, c, d):
@@ -191,7 +261,7 @@ def general_position(P):
         if incircle(a, b, c, d) == 0: return False
     return True
 
-def gen_del(rng, maxn, like=None, cap=50, kmax=12):
+def gen_del(rng, maxn, like=None, cap=50, kmax=12, reloc=False):
     if like is None:
         m = rand_mask(rng, maxn)
         n = sum(1 for r in m for b in r if not b)
@@ -201,24 +271,36 @@ def gen_del(rng, maxn, like=None, cap=50, kmax=12):
     else:
         m, subs = like["m"], like["subs"]
     pts = distort(rng, sub_centres(m, subs))
+    if reloc:
+        if len(subs) < 3: return None          # one or two border points: every relocated vertex lands on one circle / point
+        rl = gen_reloc_descr(rng, m, subs, len(pts))
+        if not movable(m, subs): return None
+        pts = add_outliers(rng, pts, factors=outlier_factors(rl), cand=movable(m, subs))
     if like is not None and like.get("points"):
         # the same vertices (the same mesh object is shared by the two mappers): only the data points differ
         sc = F(like["sc"])
         return {"op": "del", "m": m, "subs": subs, "grid": [[S(p[0] * sc), S(p[1] * sc)] for p in pts], "points": like["points"],
                 "fsub": like["fsub"], "src": rng.choice(SRC_KINDS), "sc": like["sc"]}
-    ys, xs = [p[0] for p in pts], [p[1] for p in pts]
+    ys, xs = sorted(p[0] for p in pts), sorted(p[1] for p in pts)
+    if reloc and len(pts) > 6: ys, xs = ys[3:-3], xs[3:-3]      # the vertex box follows the bulk of the data, not the outliers
     ylo, yhi, xlo, xhi = min(ys), max(ys), min(xs), max(xs)
     k = rng.randint(5, kmax)
-    sc = F(2) ** (rng.choice([-30, -10, 20]) if rng.random() < 0.25 else 0)
+    sc = F(2) ** (rng.choice([-30, -10, 20]) if (rng.random() < 0.25 and not reloc) else 0)
     for _ in range(200):
         # vertices on a 1/4 lattice in a box that is sometimes smaller than the data (points outside the hull)
         sh = rng.choice([F(-1), F(0), F(1), F(2)])
         V = [(snap(F(rng.randint(int((ylo - sh) * 4), max(int((ylo - sh) * 4) + 8, int((yhi + sh) * 4))), 4), 4),
               snap(F(rng.randint(int((xlo - sh) * 4), max(int((xlo - sh) * 4) + 8, int((xhi + sh) * 4))), 4), 4)) for _ in range(k)]
         if rng.random() < 0.3 and pts: V[0] = pts[rng.randrange(len(pts))]          # a data point sitting on a vertex
+        if reloc and rl["relocator"] and rng.random() < 0.6:
+            # mesh vertices far outside the border as well (relocated_mesh_grid_from moves them)
+            my, mx = (ylo + yhi) / 2, (xlo + xhi) / 2
+            for j in rng.sample(range(1, k), rng.randint(1, 2)):
+                f = rng.choice([4, 20])
+                V[j] = (snap(my + f * (V[j][0] - my) + rng.randint(-3, 3)), snap(mx + f * (V[j][1] - mx) + rng.randint(-3, 3)))
         if general_position(V):
             pts = list(pts)
-            if rng.random() < 0.35:
+            if rng.random() < 0.35 and not reloc:
                 # data points a hair away from a vertex / from the midpoint of two vertices (often an edge): interpolation
                 # weights as small as 2^-26 that are NOT zero
                 for _ in range(rng.randint(1, 2)):
@@ -227,9 +309,13 @@ def gen_del(rng, maxn, like=None, cap=50, kmax=12):
                     c = ((a[0] + b[0]) / 2, (a[1] + b[1]) / 2)
                     e = F(1, 2 ** rng.choice([8, 14, 20, 26]))
                     pts[rng.randrange(len(pts))] = (c[0] + (q[0] - c[0]) * e, c[1] + (q[1] - c[1]) * e)
-            return {"op": "del", "m": m, "subs": subs, "grid": [[S(p[0] * sc), S(p[1] * sc)] for p in pts],
-                    "points": [[S(p[0] * sc), S(p[1] * sc)] for p in V], "fsub": rng.random() < 0.3, "src": rng.choice(SRC_KINDS),
-                    "sc": S(sc)}
+            g = {"op": "del", "m": m, "subs": subs, "grid": [[S(p[0] * sc), S(p[1] * sc)] for p in pts],
+                 "points": [[S(p[0] * sc), S(p[1] * sc)] for p in V], "fsub": rng.random() < 0.3, "src": rng.choice(SRC_KINDS),
+                 "sc": S(sc)}
+            if reloc:
+                g["reloc"] = rl
+                if all(s == 1 for s in subs) and rng.random() < 0.5: g["src"] = "grid2d"
+            return g
     return None
 
 def gen_matrix(rng):
@@ -277,14 +363,15 @@ def gen_hist(rng, kind):
     """a history of calls on ONE mapper object (or two mappers over the same data, interleaved)"""
     maxn = 5
     base = None
+    api = rng.random() < 0.25      # the mapper of the history is built through the mesh API with a BorderRelocator and outliers
     for _ in range(20):
-        if kind == "del": base = gen_del(rng, maxn, cap=24, kmax=9)
-        else: base = gen_rect(rng, rng.choice(["exact", "public"]), maxn, cap=24)
+        if kind == "del": base = gen_del(rng, maxn, cap=24, kmax=9 if not api else 8, reloc=api)
+        else: base = gen_rect(rng, rng.choice(["exact", "public"]) if not api else "public", maxn, cap=24, reloc=api)
         if base is not None and kind == "rect" and base["shape"][0] * base["shape"][1] > 20: base = None
         if base is not None: break
     if base is None: return None
     twin, share = None, False
-    if rng.random() < 0.35:
+    if rng.random() < 0.35 and not api:
         if kind == "del":
             share = rng.random() < 0.5
             twin = gen_del(rng, maxn, like=base if share else {"m": base["m"], "subs": base["subs"]}, kmax=9)
@@ -351,6 +438,12 @@ def gen_inputs(tier, rng):
     for i in range(400 if big else 36):
         g = gen_hist(rng, "del" if i % 3 else "rect")
         if g is not None: yield g
+    # (h) mappers built through the MESH API with a BorderRelocator and outliers (and preloads.relocated_grid)
+    for i in range(100 if big else 14):
+        for f in (lambda: gen_rect(rng, "public", maxn, reloc=True, cap=24 if not big else 40),
+                  lambda: gen_del(rng, maxn, reloc=True, cap=24 if not big else 40, kmax=8 if not big else 10)):
+            g = next((x for x in (f() for _ in range(20)) if x is not None), None)
+            if g is not None: yield g
 
 # ----------------------------------------------------------------------------- running
 def snapshot(*arrs):
@@ -359,7 +452,7 @@ def unchanged(snap, *arrs):
     return all((a is None and b is None) or (np.asarray(b).shape == a.shape and np.array_equal(a, np.asarray(b), equal_nan=True))
                for a, b in zip(snap, arrs))
 
-def source_grid(aa, osr, grid, kind, subs):
+def source_grid(aa, osr, grid, kind, subs, mask=None):
     """the source-plane data grid as the library would hand it over: a fresh Grid2DIrregular, or one DERIVED by arithmetic
     (halving a doubled grid; the over-sampler's own sub-pixel grid plus a deflection, which is what a ray-tracing caller does)"""
     vals = np.array([[float(p[0]), float(p[1])] for p in grid])
@@ -368,6 +461,8 @@ def source_grid(aa, osr, grid, kind, subs):
         src = osr.over_sampled_grid + (vals - osg)
     elif kind == "scaled":
         src = aa.Grid2DIrregular(values=2.0 * vals) * 0.5
+    elif kind == "grid2d" and mask is not None and all(int(s) == 1 for s in subs):
+        src = aa.Grid2D(values=vals, mask=mask)
     else:
         src = aa.Grid2DIrregular(values=vals)
     assert np.array_equal(np.array(src), vals)
@@ -389,7 +484,7 @@ def build_common(aa, inp, mask=None, osr=None):
         # "fsub": the sub-size map is stored as floats, which is what OverSamplingUniform.from_radial_bins / from_adaptive_scheme produce
         osr = aa.OverSamplerUniform(mask=mask, sub_size=sub_size_map(aa, inp, mask))
     assert osr.sub_total == len(grid) and len(osr.over_sampled_grid) == len(grid)
-    src = source_grid(aa, osr, grid, inp.get("src", "plain"), subs)
+    src = source_grid(aa, osr, grid, inp.get("src", "plain"), subs, mask)
     return m, subs, grid, mask, osr, src
 
 def obs_psw(mapper):
@@ -413,15 +508,119 @@ def describe(psw, M):
     return {"mappings": psw[0][:6], "sizes": psw[1][:6], "weights": [[str(x) for x in r] for r in psw[2][:6]],
             "mapping_matrix": [[str(x) for x in r] for r in M[:4]]}
 
+def fpts(a): return [(frac(v[0]), frac(v[1])) for v in np.asarray(a).reshape(-1, 2)]
+
+def default_preloads(aa):
+    """the shared DEFAULT Preloads() objects of the mesh API (one per function, created at import time)"""
+    out = []
+    for cls in (aa.mesh.Rectangular, aa.mesh.Delaunay):
+        for name in ("mapper_grids_from", "relocated_grid_from"):
+            p = inspect.signature(getattr(cls, name)).parameters.get("preloads")
+            if p is not None and p.default is not inspect.Parameter.empty and not any(p.default is q for q in out): out.append(p.default)
+    return out
+def fingerprint(objs): return [sorted((k, id(v)) for k, v in vars(o).items()) for o in objs]
+
+def ref_relocate(G, B):
+    """independent reference of the relocation of the points G against the border points B (exact Fractions for every
+    decision, floats for the move): used to know which sub-pixels move and for the decision bands; the comparison with
+    the implementation is made inside Coq (C18's model and specification)"""
+    n = len(B)
+    if n == 0: return list(G), 0
+    cy, cx = sum(b[0] for b in B) / n, sum(b[1] for b in B) / n
+    r2 = lambda p: (p[0] - cy) ** 2 + (p[1] - cx) ** 2
+    br2 = [r2(b) for b in B]; bmin2 = min(br2)
+    out, moved = [], 0
+    for p in G:
+        rp2 = r2(p)
+        if rp2 > bmin2:
+            d2 = [(p[0] - b[0]) ** 2 + (p[1] - b[1]) ** 2 for b in B]
+            k = d2.index(min(d2))
+            if br2[k] < rp2:
+                f = math.sqrt(br2[k] / rp2)
+                out.append((F(f * float(p[0] - cy) + float(cy)), F(f * float(p[1] - cx) + float(cx)))); moved += 1
+                continue
+        out.append(p)
+    return out, moved
+
+def reloc_reference(d):
+    """-> (reference held data grid, reference held vertices or None, in a decision band?, number of sub-pixels moved,
+    number of vertices moved) for a mapper built through the mesh API"""
+    from harness import c18
+    rl, orig, sbs = d["reloc"], d["orig"], d["sbs"]
+    pre = [(F(a), F(b)) for a, b in rl["preload"]] if rl.get("preload") else None
+    src = pre if pre is not None else orig
+    band = False; moved = vmoved = 0
+    if pre is not None or not rl["relocator"]:
+        held = src
+    else:
+        B = [orig[k] for k in sbs]
+        band = band or c18.in_band_F(orig, B, tally=False)
+        held, moved = ref_relocate(orig, B)
+    heldV = None
+    if d["kind"] == "del":
+        if rl["relocator"]:
+            B = [held[k] for k in sbs]
+            band = band or c18.in_band_F(d["origV"], [src[k] for k in sbs], tally=False)
+            heldV, vmoved = ref_relocate(d["origV"], B)
+        else:
+            heldV = d["origV"]
+    d["ref_src"] = src
+    return held, heldV, band, moved, vmoved
+
+def del_band(grid, V, grid0=None, V0=None):
+    """Delaunay on vertices that are no longer lattice points: three vertices nearly collinear / two nearly equal, or a data
+    point within 1e-9 (barycentric) of an edge without being exactly on it (qhull's find_simplex has its own tolerance; the
+    oracle's contract is checked in exact arithmetic).  grid0 / V0 = the grids before relocation: a point EXACTLY on an edge
+    or vertex is only meaningful between coordinates the relocator left alone (a moved coordinate of the implementation may
+    differ from this reference by an ulp)"""
+    moved_q = [grid0 is not None and grid[i] != grid0[i] for i in range(len(grid))]
+    moved_v = [V0 is not None and V[j] != V0[j] for j in range(len(V))]
+    import scipy.spatial
+    eps = F(1, 10 ** 9)
+    span = max(max(abs(c) for p in V for c in p), F(1))
+    for a, b, c in itertools.combinations(V, 3):
+        if abs(cross(a, b, c)) < eps * span * span: return True
+    try:
+        tri = scipy.spatial.Delaunay(np.array([[float(p[0]), float(p[1])] for p in V]))
+    except Exception:
+        return True
+    for qi, q in enumerate(grid):
+        for row in tri.simplices:
+            v0, v1, v2 = (V[int(j)] for j in row)
+            inexact = moved_q[qi] or any(moved_v[int(j)] for j in row)
+            dd = cross(v0, v1, v2)
+            for sgn in (cross(q, v1, v2), cross(v0, q, v2), cross(v0, v1, q)):
+                if (sgn != 0 or inexact) and abs(sgn) < eps * abs(dd): return True
+    return False
+
 def make_mapper(aa, inp, mask=None, osr=None, adapt=None, reg=None, mesh=None):
     """-> dict with the mapper, the model-side inputs and the arrays the caller handed over (to check they are left alone)"""
     m, subs, grid, mask, osr, src = build_common(aa, inp, mask, osr)
     d = {"m": m, "subs": subs, "grid": grid, "mask": mask, "osr": osr, "src": src, "kind": inp["op"]}
+    rl = inp.get("reloc")
+    kw, pre_obj, relocator = {}, None, None
+    if rl:
+        if rl["relocator"]:
+            ss = int(subs[0]) if (rl["sub_int"] and len(set(int(s) for s in subs)) == 1) else osr.sub_size
+            relocator = aa.BorderRelocator(mask=mask, sub_size=ss)
+            kw["border_relocator"] = relocator
+        if rl.get("preload"):
+            pre_obj = aa.Grid2DIrregular(values=np.array([[float(F(a)), float(F(b))] for a, b in rl["preload"]]))
+            kw["preloads"] = aa.Preloads(relocated_grid=pre_obj)
+        if rl.get("opt"):
+            if inp["op"] == "del": kw["image_plane_mesh_grid"] = aa.Grid2DIrregular(values=[[0.25 * j, -0.5 * j] for j in range(len(inp["points"]))])
+        d["defaults"] = default_preloads(aa); d["defaults_fp"] = fingerprint(d["defaults"])
+        # a mesh object that has already served ANOTHER source plane (same mask, same relocator)
+        decoy = aa.Grid2DIrregular(values=0.5 * np.array(src)[::-1] + 0.25) if rl.get("warm") else None
     if inp["op"] == "rect":
         shape = tuple(inp["shape"]); buf = F(inp["buffer"])
         if inp["mode"] == "exact":
             mesh = aa.Mesh2DRectangular.overlay_grid(shape_native=shape, grid=np.array(src), buffer=float(buf))
             mg = aa.MapperGrids(mask=mask, source_plane_data_grid=src, source_plane_mesh_grid=mesh, adapt_data=adapt)
+        elif rl:
+            mesh_obj = aa.mesh.Rectangular(shape=shape)
+            if decoy is not None: mesh_obj.mapper_grids_from(mask=mask, source_plane_data_grid=decoy, border_relocator=relocator)
+            mg = mesh_obj.mapper_grids_from(mask=mask, source_plane_data_grid=src, adapt_data=adapt, **kw)
         else:
             mg = aa.mesh.Rectangular(shape=shape).mapper_grids_from(mask=mask, source_plane_data_grid=src, adapt_data=adapt)
         d.update(shape=shape, buf=buf, mesh_in=None)
@@ -430,23 +629,46 @@ def make_mapper(aa, inp, mask=None, osr=None, adapt=None, reg=None, mesh=None):
         if mesh is None:
             vin = aa.Grid2DIrregular(values=[[float(p[0]), float(p[1])] for p in V])
             if inp.get("src") == "scaled": vin = aa.Grid2DIrregular(values=2.0 * np.array(vin)) * 0.5
-            mg = aa.mesh.Delaunay().mapper_grids_from(mask=mask, source_plane_data_grid=src, source_plane_mesh_grid=vin,
-                                                      adapt_data=adapt)
+            mesh_obj = aa.mesh.Delaunay()
+            if rl and decoy is not None:
+                mesh_obj.mapper_grids_from(mask=mask, source_plane_data_grid=decoy, source_plane_mesh_grid=vin, border_relocator=relocator)
+            mg = mesh_obj.mapper_grids_from(mask=mask, source_plane_data_grid=src, source_plane_mesh_grid=vin, adapt_data=adapt, **kw)
         else:
             vin = None
             mg = aa.MapperGrids(mask=mask, source_plane_data_grid=src, source_plane_mesh_grid=mesh, adapt_data=adapt)
         d.update(V=V, mesh_in=vin)
     d["mg"] = mg
-    d["mapper"] = aa.Mapper(mapper_grids=mg, over_sampler=osr, regularization=reg)
+    if rl and rl.get("opt"):
+        d["mapper"] = aa.Mapper(mapper_grids=mg, over_sampler=osr, regularization=reg, border_relocator=relocator)
+    else:
+        d["mapper"] = aa.Mapper(mapper_grids=mg, over_sampler=osr, regularization=reg)
     d["adapt"] = adapt
-    d["held"] = [src, d["mesh_in"], adapt, osr.sub_size, mask]
+    d["held"] = [src, d["mesh_in"], adapt, osr.sub_size, mask, pre_obj]
     d["snap"] = snapshot(*d["held"])
+    if rl:
+        # the model-side inputs of the mapper are the arrays the mapper HOLDS (observed), the originals go to the relocation clause
+        d["reloc"] = rl; d["orig"] = grid; d["grid"] = fpts(d["mapper"].source_plane_data_grid)
+        d["sbs"] = [int(v) for v in relocator.sub_border_slim] if relocator is not None else []
+        if inp["op"] == "del": d["origV"] = d["V"]; d["V"] = fpts(d["mapper"].source_plane_mesh_grid)
     return d
+
+def mesh_api_wrap(d, coq):
+    """KMeshApi: the relocation clause (original grids, relocator, preload) around the KRect / KDel case of the held grids"""
+    rl = d["reloc"]
+    rel = f"(Some ({cmask(d['m'])}, {cnl([int(s) for s in d['subs']])}))" if rl["relocator"] else "None"
+    pre = f"(Some {cpts([(F(a), F(b)) for a, b in rl['preload']])})" if rl.get("preload") else "None"
+    return f"(KMeshApi {rel} {cnl(d['sbs'])} {pre} {cpts(d['orig'])} {cpts(d.get('origV', []))} {coq})"
+
+def mesh_api_py_checks(d):
+    bad = []
+    if fingerprint(d["defaults"]) != d["defaults_fp"]: bad.append("a shared default Preloads() object of the mesh API was modified")
+    return bad
 
 def oracle(d):
     dl = d["mapper"].delaunay
     indptr, indices = dl.vertex_neighbor_vertices
-    return (im(dl.simplices), [int(x) for x in dl.find_simplex(np.array(d["src"]))], [int(x) for x in indptr], [int(x) for x in indices])
+    return (im(dl.simplices), [int(x) for x in dl.find_simplex(np.array(d["mapper"].source_plane_data_grid))],
+            [int(x) for x in indptr], [int(x) for x in indices])
 
 def in_band(grid, shape, buf):
     """public rectangular pipeline: every cell-boundary decision must be at a margin (exact rational position in cell units)"""
@@ -497,8 +719,14 @@ def do_aux(aa, d, name):
              "ConstantSplit": lambda: aa.reg.ConstantSplit(coefficient=1.0),
              "AdaptiveBrightnessSplit": lambda: aa.reg.AdaptiveBrightnessSplit(1.0, 0.5, 1.0),
              "GaussianKernel": lambda: aa.reg.GaussianKernel(coefficient=1.0, scale=1.0)}[cls]()
-        scribble(R.regularization_weights_from(linear_obj=mp))
-        scribble(R.regularization_matrix_from(linear_obj=mp))
+        try:
+            scribble(R.regularization_weights_from(linear_obj=mp))
+            scribble(R.regularization_matrix_from(linear_obj=mp))
+        except aa.exc.MeshException:
+            # the Split schemes build a scipy Voronoi diagram of the vertices: it can fail on RELOCATED (non-lattice, nearly
+            # cocircular) vertices; a perturber that does not apply, not C06's subject
+            if "Split" not in cls or not d.get("reloc"): raise
+            TALLY["aux_split_regularization_not_applicable"] = TALLY.get("aux_split_regularization_not_applicable", 0) + 1
 
 def do_step(aa, d, op):
     mp = d["mapper"]; k = op[0]
@@ -521,11 +749,12 @@ def do_step(aa, d, op):
 
 def run_hist(aa, inp):
     bases = [inp["base"]] + ([inp["twin"]] if inp.get("twin") else [])
-    if any(b["op"] == "rect" and b["mode"] == "public" and in_band([(F(p[0]), F(p[1])) for p in b["grid"]], tuple(b["shape"]), F(b["buffer"]))
-           for b in bases):
+    def skip(why):
         SKIPPED["in_band"] += 1
-        return {"coq": None, "out": "skipped: a point within the decision band of a cell boundary", "py_ok": None,
-                "nontrivial": False, "kind": "hist:skipped_in_band"}
+        return {"coq": None, "out": "skipped: " + why, "py_ok": None, "nontrivial": False, "kind": "hist:skipped_in_band"}
+    if any(b["op"] == "rect" and b["mode"] == "public" and not b.get("reloc")
+           and in_band([(F(p[0]), F(p[1])) for p in b["grid"]], tuple(b["shape"]), F(b["buffer"])) for b in bases):
+        return skip("a point within the decision band of a cell boundary")
     regp = inp["reg"]
     reg = aa.reg.AdaptiveBrightness(inner_coefficient=float(F(regp[0])), outer_coefficient=float(F(regp[1])), signal_scale=float(regp[2]))
     ds = []
@@ -544,6 +773,12 @@ def run_hist(aa, inp):
         mesh = first["mg"].source_plane_mesh_grid if (first and b["op"] == "del" and inp.get("share_mesh")) else None
         d = make_mapper(aa, b, mask=mask, osr=osr, adapt=adapt, reg=reg, mesh=mesh)
         d["regp"] = regp; d["steps"] = []; d["advals"] = [F(x) for x in inp["adapt"][j]]
+        if b.get("reloc"):
+            ref_held, ref_V, band, moved, vmoved = reloc_reference(d)
+            if band or (b["op"] == "rect" and in_band(ref_held, tuple(b["shape"]), F(b["buffer"]))) \
+               or (b["op"] == "del" and del_band(ref_held, ref_V, d["ref_src"], d["origV"])):
+                return skip("a relocation / cell-boundary / simplex-edge decision of a mapper built through the mesh API inside its band")
+            d["moved"] = moved + vmoved
         ds.append(d)
     trace = []
     for item in inp["sched"]:
@@ -555,6 +790,7 @@ def run_hist(aa, inp):
             o = do_step(aa, d, op)
             d["steps"].append((op, o)); trace.append(f"{who}:{op[0]}")
     cases = []
+    api_cases = []
     ok_inputs = True
     py_bad = []
     for d in ds:
@@ -563,9 +799,25 @@ def run_hist(aa, inp):
         last = {}
         for op, o in d["steps"]:
             if op[0] in OBS: last["psw" if op[0] == "fields" else op[0]] = o
+        final = {}
         for k, f in (("psw", obs_psw), ("mm", obs_mm), ("uq", obs_uq), ("nb", obs_nb)):
-            if k in last and f(d["mapper"]) != last[k]:
+            final[k] = f(d["mapper"])
+            if k in last and final[k] != last[k]:
                 py_bad.append(f"{k} read again at the end of the history differs from its previous reading on the same mapper object")
+        if d.get("reloc"):
+            # the relocation clause for the mapper of this history (with the closing readings as its observation)
+            py_bad += mesh_api_py_checks(d)
+            if d["kind"] == "rect":
+                mesh = d["mapper"].source_plane_mesh_grid
+                mesh_o = [frac(mesh.pixel_scales[0]), frac(mesh.pixel_scales[1]), frac(mesh.origin[0]), frac(mesh.origin[1])]
+                k0 = (f"(KRect {cq(TOL)} {cmask(d['m'])} {cnl(d['subs'])} {cpts(d['grid'])} ({cz(d['shape'][0])}, {cz(d['shape'][1])}) {cq(d['buf'])} "
+                      f"{ctup([cq(x) for x in mesh_o])} {cpsw(final['psw'])} {cqm(final['mm'])} {cuq(final['uq'])} {cnb(final['nb'])})")
+            else:
+                simplices, simplex_for, indptr, indices = oracle(d)
+                k0 = (f"(KDel {cq(TOL)} {cmask(d['m'])} {cnl(d['subs'])} {cpts(d['grid'])} {cpts(d['V'])} {czm(simplices)} {czl(simplex_for)} "
+                      f"{czl(indptr)} {czl(indices)} {cpsw(final['psw'])} {cqm(final['mm'])} {cuq(final['uq'])} {cnb(final['nb'])})")
+            api_cases.append(mesh_api_wrap(d, k0))
+            TALLY["history_mappers_built_through_the_mesh_api"] = TALLY.get("history_mappers_built_through_the_mesh_api", 0) + 1
         steps = clist([f"({chop(op)}, {chobs(op[0], o)})" for op, o in d["steps"]])
         if d["kind"] == "rect":
             tol = F(0) if d["mapper"] is not None and bases[ds.index(d)]["mode"] == "exact" else TOL
@@ -579,16 +831,16 @@ def run_hist(aa, inp):
     TALLY["history_mappers"] = TALLY.get("history_mappers", 0) + len(ds)
     firstop = next((t.split(":", 1)[1] for t in trace), "")
     if not ok_inputs: py_bad.append("an array handed to the mapper (source grid / mesh grid / adapt_data / sub_size / mask) was modified")
-    return {"coq": cases[0], "extra_coq": cases[1:], "out": {"trace": trace, "inputs_left_unchanged": ok_inputs, "py_checks_failed": py_bad},
+    return {"coq": cases[0], "extra_coq": cases[1:] + api_cases, "out": {"trace": trace, "inputs_left_unchanged": ok_inputs, "py_checks_failed": py_bad},
             "py_ok": False if py_bad else None, "nontrivial": True, "detail": "; ".join(py_bad) or None,
-            "kind": "hist:" + bases[0]["op"] + (":twin" if len(ds) > 1 else "") + (":signals_first" if firstop.split(":")[0] in ("sig", "regw", "regm") else "")}
+            "kind": "hist:" + bases[0]["op"] + (":api" if bases[0].get("reloc") else "") + (":twin" if len(ds) > 1 else "") + (":signals_first" if firstop.split(":")[0] in ("sig", "regw", "regm") else "")}
 
 def run_case(inp):
     aa = import_aa()
     op = inp["op"]
     if op == "hist": return run_hist(aa, inp)
     r = run_case_base(aa, inp)
-    if r.get("coq"): r["coq"] = "(KBase " + r["coq"] + ")"
+    if r.get("coq") and not r.pop("wrapped", False): r["coq"] = "(KBase " + r["coq"] + ")"
     return r
 
 def run_case_base(aa, inp):
@@ -656,11 +908,29 @@ def run_case_base(aa, inp):
         return {"coq": coq, "out": str(out)[:300], "py_ok": None, "nontrivial": out[0] == "ok" and sum(sz) > 1, "kind": "unique:" + out[0]}
     if op in ("rect", "del"):
         grid0 = [(F(p[0]), F(p[1])) for p in inp["grid"]]
-        if op == "rect" and inp["mode"] != "exact" and in_band(grid0, tuple(inp["shape"]), F(inp["buffer"])):
+        api = bool(inp.get("reloc"))
+        def skip(why, kind):
             SKIPPED["in_band"] += 1
-            return {"coq": None, "out": "skipped: a point within the decision band of a cell boundary", "py_ok": None,
-                    "nontrivial": False, "kind": "rect:skipped_in_band"}
+            return {"coq": None, "out": "skipped: " + why, "py_ok": None, "nontrivial": False, "kind": kind}
+        if op == "rect" and not api and inp["mode"] != "exact" and in_band(grid0, tuple(inp["shape"]), F(inp["buffer"])):
+            return skip("a point within the decision band of a cell boundary", "rect:skipped_in_band")
         d = make_mapper(aa, inp)
+        if api:
+            # decision bands of a mapper built through the mesh API, on the REFERENCE relocation (not on what came back)
+            ref_held, ref_V, band, moved, vmoved = reloc_reference(d)
+            if band: return skip("a relocation decision (radius vs border radius) inside C18's band", op + ":api:skipped_in_band")
+            if op == "rect" and in_band(ref_held, tuple(inp["shape"]), F(inp["buffer"])):
+                return skip("a relocated point within the decision band of a cell boundary", "rect:api:skipped_in_band")
+            if op == "del" and del_band(ref_held, ref_V, d["ref_src"], d["origV"]):
+                return skip("relocated vertices nearly degenerate / a relocated point within 1e-9 of a simplex edge", "del:api:skipped_in_band")
+            TALLY["mesh_api_cases"] = TALLY.get("mesh_api_cases", 0) + 1
+            TALLY["mesh_api_sub_pixels_moved_by_the_relocator"] = TALLY.get("mesh_api_sub_pixels_moved_by_the_relocator", 0) + moved
+            TALLY["mesh_api_vertices_moved_by_the_relocator"] = TALLY.get("mesh_api_vertices_moved_by_the_relocator", 0) + vmoved
+            TALLY["mesh_api_preloaded"] = TALLY.get("mesh_api_preloaded", 0) + bool(inp["reloc"].get("preload"))
+            tag = ":api" + (":moved" if moved or vmoved else "") + (":preload" if inp["reloc"].get("preload") else "") \
+                  + ("" if inp["reloc"]["relocator"] else ":no_relocator")
+        else:
+            tag = ""
         mapper, m, subs, grid = d["mapper"], d["m"], d["subs"], d["grid"]
         psw, M, uq, nb = observe(mapper)
         # the same object asked again (and through the per-field accessors) answers the same; the arrays handed in are left alone
@@ -668,6 +938,7 @@ def run_case_base(aa, inp):
         py_bad = []
         if again != (psw, M, uq, nb) or obs_fields(mapper) != psw: py_bad.append("a second reading of the same mapper object differs from the first")
         if not unchanged(d["snap"], *d["held"]): py_bad.append("an array handed to the mapper was modified")
+        if api: py_bad += mesh_api_py_checks(d)
         TALLY["float_sub_size_cases"] += bool(inp.get("fsub"))
         TALLY["source_grid_kinds"][inp.get("src", "plain")] = TALLY["source_grid_kinds"].get(inp.get("src", "plain"), 0) + 1
         big = max(abs(c) for p in grid for c in p)
@@ -689,8 +960,9 @@ def run_case_base(aa, inp):
         coq = (f"(KRect {cq(tol)} {cmask(m)} {cnl(subs)} {cpts(grid)} ({cz(shape[0])}, {cz(shape[1])}) {cq(buf)} "
                f"{ctup([cq(x) for x in mesh_o])} {cpsw(psw)} {cqm(M)} {cuq(uq)} {cnb(nb)})")
         used = len({r[0] for r in psw[0]})
-        return {"coq": coq, "out": describe(psw, M), "py_ok": False if py_bad else None, "detail": "; ".join(py_bad) or None,
-                "nontrivial": used > 1, "kind": "rect:" + inp["mode"] + (":float_sub_size" if inp.get("fsub") else "")}
+        if api: coq = mesh_api_wrap(d, coq)
+        return {"coq": coq, "wrapped": api, "out": describe(psw, M), "py_ok": False if py_bad else None, "detail": "; ".join(py_bad) or None,
+                "nontrivial": used > 1, "kind": "rect:" + inp["mode"] + tag + (":float_sub_size" if inp.get("fsub") else "")}
     if op == "del":
         V = d["V"]
         simplices, simplex_for, indptr, indices = oracle(d)
@@ -699,6 +971,7 @@ def run_case_base(aa, inp):
         TALLY["del_points"] += len(grid); TALLY["del_points_outside_hull"] += sum(1 for t in simplex_for if t == -1)
         TALLY["del_points_on_an_edge_or_vertex"] += sum(1 for r, n in zip(psw[2], psw[1]) if n == 3 and any(x == 0 for x in r))
         kinds = ("outside" if -1 in simplex_for else "") + ("inside" if any(s >= 0 for s in simplex_for) else "")
-        return {"coq": coq, "out": describe(psw, M), "py_ok": False if py_bad else None, "detail": "; ".join(py_bad) or None,
-                "nontrivial": len(grid) > 1, "kind": "del:" + kinds + (":float_sub_size" if inp.get("fsub") else "")}
+        if api: coq = mesh_api_wrap(d, coq)
+        return {"coq": coq, "wrapped": api, "out": describe(psw, M), "py_ok": False if py_bad else None, "detail": "; ".join(py_bad) or None,
+                "nontrivial": len(grid) > 1, "kind": "del:" + kinds + tag + (":float_sub_size" if inp.get("fsub") else "")}
     raise ValueError(op)
